@@ -61,18 +61,21 @@ func genConc(t *rapid.T, bounded bool) concProg {
 
 // shared is the state of one execution of a concurrent program.
 type shared struct {
-	w        *sim.World
-	log      *ipfslog.IPFSLog
-	initial  world.Set
-	sources  []*ipfslog.IPFSLog // valid sources (other replicas)
-	srcSets  []world.Set
-	bad      []*ipfslog.IPFSLog // sources containing an unsigned entry
-	mu       sync.Mutex
-	appends  []appendRec
-	joined   world.Set // union of successfully joined source sets
-	results  []readRec
-	bounded  bool
-	errs     []string
+	w       *sim.World
+	log     *ipfslog.IPFSLog
+	initial world.Set
+	sources []*ipfslog.IPFSLog // valid sources (other replicas)
+	srcSets []world.Set
+	bad     []*ipfslog.IPFSLog // sources containing an unsigned entry
+	mu      sync.Mutex
+	appends []appendRec
+	joined  world.Set // union of successfully joined source sets
+	results []readRec
+	bounded bool
+	errs    []string
+	// optional callbacks around appends (property-specific engines)
+	onAppendStart func(tid int)
+	onAppend      func(tid int, e iface.IPFSLogEntry)
 }
 
 type appendRec struct {
@@ -142,12 +145,18 @@ func (s *shared) do(tid, oi int, op cop) {
 	}
 	switch op.Kind {
 	case "append":
+		if s.onAppendStart != nil {
+			s.onAppendStart(tid)
+		}
 		e, err := l.Append(ctx, []byte(fmt.Sprintf("t%d-%d", tid, oi)), &ipfslog.AppendOptions{PointerCount: []int{0, 1, 2, 4, 8}[op.Arg%5]})
 		if err != nil {
 			s.fail("T%d op %d: append failed: %v", tid, oi, err)
 			return
 		}
 		s.w.Reg.Record(e)
+		if s.onAppend != nil {
+			s.onAppend(tid, e)
+		}
 		s.mu.Lock()
 		s.appends = append(s.appends, appendRec{thread: tid, op: oi, hash: e.GetHash().String(), next: world.CidHashes(e.GetNext())})
 		s.mu.Unlock()
